@@ -6,12 +6,14 @@ CONSTANTS
   ClassNs = {4}
   SaNs = {5}
   MonoNs = {5}
-  PermAllN = 4
+  PermAllN = 3
+  LawFams = {"full", "typed", "class", "arom", "single"}
 INVARIANT InvDom
 INVARIANT InvCycles
 INVARIANT InvMinBasis
 INVARIANT InvImplBasis
 INVARIANT InvRotatable
 INVARIANT InvTypeMaps
+INVARIANT InvExp
 INVARIANT InvRelabel
 CHECK_DEADLOCK FALSE
